@@ -8,6 +8,7 @@ Import ListNotations.
 Section LocProofs.
   Context {call key_input digest binding kbinding value src : Type}.
   Variable C : cfg call key_input digest binding kbinding value src.
+  Variable sibs : nat -> list nat.
   Hypothesis digest_eqb_spec : forall a b, digest_eqb C a b = true <-> a = b.
   Hypothesis src_eqb_spec : forall a b, src_eqb C a b = true <-> a = b.
 
@@ -45,21 +46,21 @@ Section LocProofs.
   Lemma nth_error_Forall {A} (P : A -> Prop) : forall l n x, Forall P l -> nth_error l n = Some x -> P x.
   Proof. intros l n x H E. rewrite Forall_forall in H. apply H. eapply nth_error_In. exact E. Qed.
 
-  Theorem mstep_inv : forall (sl : list slot) me, Forall SInv sl -> Forall SInv (snd (mstep C sl me)).
+  Theorem mstep_inv : forall (sl : list slot) me, Forall SInv sl -> Forall SInv (snd (mstep C sibs sl me)).
   Proof.
     intros sl [L e|e] H; cbn.
     - destruct (nth_error sl L) as [s|] eqn:En; [|exact H].
       pose proof (slot_step_inv s e (nth_error_Forall _ _ _ _ H En)) as Hs.
       destruct (slot_step C s e) as [o s']. cbn [snd] in *.
-      apply update_others_inv. apply set_nth_inv; assumption.
+      apply update_others_inv. apply set_nth_inv; [assumption|]. apply slot_apply_inv. assumption.
     - rewrite Forall_map. rewrite Forall_forall in *. intros s Hin. apply slot_step_inv. apply H. exact Hin.
   Qed.
 
-  Theorem mrun_inv : forall h (sl : list slot), Forall SInv sl -> Forall SInv (snd (mrun C sl h)).
+  Theorem mrun_inv : forall h (sl : list slot), Forall SInv sl -> Forall SInv (snd (mrun C sibs sl h)).
   Proof.
     induction h as [|me t IH]; intros sl H; cbn; [exact H|].
-    pose proof (mstep_inv sl me H) as H1. destruct (mstep C sl me) as [o sl']. cbn [snd] in H1.
-    specialize (IH sl' H1). destruct (mrun C sl' t) as [os sl'']. exact IH.
+    pose proof (mstep_inv sl me H) as H1. destruct (mstep C sibs sl me) as [o sl']. cbn [snd] in H1.
+    specialize (IH sl' H1). destruct (mrun C sibs sl' t) as [os sl'']. exact IH.
   Qed.
 
   Lemma minit_inv : forall n, Forall SInv (minit n).
@@ -78,7 +79,7 @@ Section LocProofs.
   Qed.
 
   Theorem fast_path_location : forall h n L st m k,
-    nth_error (snd (mrun C (minit n) h)) L = Some (st, Some m) ->
+    nth_error (snd (mrun C sibs (minit n) h)) L = Some (st, Some m) ->
     usable C m k -> mem_nat k (table st) = true ->
     check_code C st k = Some (true, st) /\ disk st = Some (code C k).
   Proof.
@@ -93,7 +94,7 @@ Section LocProofs.
     match me with
     | At L (Call k c vld) =>
         forall st m m' v b, nth_error sl L = Some (st, Some m) -> adm_step C m (Call k c vld) = Some m' ->
-          (fst (mstep C sl me) = OHit v \/ fst (mstep C sl me) = OMiss v) ->
+          (fst (mstep C sibs sl me) = OHit v \/ fst (mstep C sibs sl me) = OMiss v) ->
           bind_spec C c = Some b -> v = f C (code C k) b
     | _ => True
     end.
@@ -101,7 +102,7 @@ Section LocProofs.
   Fixpoint msound (sl : list slot) (h : list (mevent (call:=call) (digest:=digest))) : Prop :=
     match h with
     | [] => True
-    | me :: t => step_sound sl me /\ msound (snd (mstep C sl me)) t
+    | me :: t => step_sound sl me /\ msound (snd (mstep C sibs sl me)) t
     end.
 
   Theorem mrun_sound : key_sound C -> f_respects C -> forall h (sl : list slot), Forall SInv sl -> msound sl h.
